@@ -153,7 +153,7 @@ func coqVar(set bool, s string) string {
 func c05(args []string) int {
 	run := NewRun("C05", args)
 	r := run.R
-	run.Sum.Rule = "per policy (8): host sets of size 0..5 (thorough 0..6) x EVERY health pattern x weight vectors (equal / unequal -> EDF scheduler absent / present) x active-count vectors x round-robin cursors (0, random, 2^32-2) x scripted draw vectors (all of them for sets <= 3, random above) x choice counts (0..3) x retry re-entries on the same request context (maglev, request-RR) ; plus WRR call sequences on one real balancer with unequal weights and unhealthy hosts (all picks of all calls must be a run of the EDF scheduler model; window bound over healthy hosts), histories through a real cluster (ChooseHost / health flips / UpdateHosts), a concurrent replace-while-choosing run, and round robin under deterministic re-entrant lookups (sizes 1..7, every single-healthy position, cursors 2^32-1-k for k < 3*size, an interference - k foreign cursor increments, 1-2 complete nested lookups, a health flip - at every probe position of the lookup; non-trivial when the interference fired and the cursor wraps during the lookup). A case is non-trivial when the set has >= 2 hosts and at least one unhealthy host; distinct by (policy, hosts, cursor, draws, picks, ctx)."
+	run.Sum.Rule = "per policy (8): host sets of size 0..5 (thorough 0..6) x EVERY health pattern x weight vectors (equal / unequal -> EDF scheduler absent / present) x active-count vectors x round-robin cursors (0, random, 2^32-2) x scripted draw vectors (all of them for sets <= 3, random above) x choice counts (0..3) x retry re-entries on the same request context (maglev, request-RR) ; plus WRR call sequences on one real balancer with unequal weights and unhealthy hosts (all picks of all calls must be a run of the EDF scheduler model; window bound over healthy hosts), histories through a real cluster (ChooseHost / health flips / UpdateHosts), a concurrent replace-while-choosing run, and round robin under deterministic re-entrant lookups (sizes 1..7, every single-healthy position, cursors 2^32-1-k for k < 3*size, an interference - k foreign cursor increments, 1-2 complete nested lookups, a health flip - at every probe position of the lookup; non-trivial when the interference fired and the cursor wraps during the lookup); cluster-manager histories per policy (UpdateClusterHosts / AppendClusterHosts incl. the same address twice in a batch / RemoveClusterHosts, published addresses and lookups after every operation). A case is non-trivial when the set has >= 2 hosts and at least one unhealthy host; distinct by (policy, hosts, cursor, draws, picks, ctx)."
 	header := "From MV Require Import Gen.LBTokens Model.LB.\nFrom Coq Require Import List ZArith NArith.\nImport ListNotations.\nOpen Scope Z_scope.\n"
 	sh := run.NewShard(header, "lb_case", "lb_mismatches lr_fallback_aware lc_fallback_aware")
 	gen := 0
@@ -630,6 +630,7 @@ func c05(args []string) int {
 		}
 	}
 	c05rr(run)
+	c05cm(run)
 	return run.Finish()
 }
 
